@@ -4,3 +4,4 @@ pub mod dsv;
 pub mod json;
 pub mod jsonmut;
 pub mod text;
+pub mod yaml;
